@@ -349,6 +349,10 @@ pub fn gen_layers(src: &mut Src, share_numbers: bool) -> Vec<RLayer> {
         let mut pnums: Vec<i16> = vec![];
         let mut add = |src: &mut Src, p: RPurpose, purposes: &mut Vec<(i16, RPurpose)>| {
             let mut k = src.below(60) as i16;
+            // a purpose may carry the number of its own layer (pin 16/16 beside drawing 16/0)
+            if src.prob(1, 6) && !pnums.contains(&num) {
+                k = num;
+            }
             if share_numbers && !pnums.is_empty() && !matches!(p, RPurpose::Other | RPurpose::Named(_)) && src.prob(1, 5) {
                 k = pnums[src.index(pnums.len())];
             } else {
@@ -466,7 +470,7 @@ pub fn gen_rawlib(src: &mut Src, o: &RawGenOpts) -> RLib {
                 outline.push((0, 0));
             }
             let np = src.usize_in(0, 3);
-            let mut ports = vec![];
+            let mut ports: Vec<RPort> = vec![];
             let pin_layers: Vec<usize> = (0..layers.len()).filter(|i| layers[*i].purposes.iter().any(|p| p.1 == RPurpose::Pin) && layers[*i].name.is_some()).collect();
             for pi in 0..np {
                 if pin_layers.is_empty() {
@@ -478,7 +482,9 @@ pub fn gen_rawlib(src: &mut Src, o: &RawGenOpts) -> RLib {
                 let shapes = idx[..nl].iter().enumerate().map(|(k, l)| (*l, (0..src.usize_in(1, 2)).map(|j| { let g = gen_geom(src, pi * 6 + k * 2 + j).0; maybe_close(src, o, g) }).collect())).collect();
                 // port names in no particular order (the list is ordered data, not a set)
                 const PORT_NAMES: &[&str] = &["vpwr", "vgnd", "a", "y", "clk", "Q"];
-                ports.push(RPort { net: PORT_NAMES[(pi * 5 + w as usize + h as usize) % PORT_NAMES.len()].to_string(), shapes });
+                // (one net may head several ports: a supply rail at the top and at the bottom)
+                let net = if !ports.is_empty() && src.prob(1, 6) { ports[src.index(ports.len())].net.clone() } else { PORT_NAMES[(pi * 5 + w as usize + h as usize) % PORT_NAMES.len()].to_string() };
+                ports.push(RPort { net, shapes });
             }
             let obs_layers: Vec<usize> = (0..layers.len()).filter(|i| layers[*i].purposes.iter().any(|p| p.1 == RPurpose::Obstruction) && layers[*i].name.is_some()).collect();
             let nb = src.usize_in(0, obs_layers.len().min(3));
